@@ -239,7 +239,9 @@ func Build(spec *ProgSpec) *Built {
 	b := &Built{Spec: spec, Nodes: map[string]*Node{}, Lv: spec.Levels()}
 	g := getoptions.New()
 	g.Self(spec.Root.Name, spec.Root.Desc)
-	g.SetMode(getoptions.Mode(spec.Mode))
+	if !spec.ModeLate {
+		g.SetMode(getoptions.Mode(spec.Mode))
+	}
 	g.SetUnknownMode(getoptions.UnknownMode(spec.UnknownMode))
 	if spec.RequireOrder {
 		g.SetRequireOrder()
@@ -253,6 +255,10 @@ func Build(spec *ProgSpec) *Built {
 			fns = append(fns, g.Alias(spec.HelpAliases...))
 		}
 		g.HelpCommand(spec.Help, fns...)
+	}
+	if spec.ModeLate {
+		// the mode is a property of the whole parse (taken from the root at Parse time)
+		g.SetMode(getoptions.Mode(spec.Mode))
 	}
 	return b
 }
